@@ -452,6 +452,16 @@ impl Next for Prec {
             r is Err ==> r->Err_0.1.len() >= 1,
 //@   endspec
 //@ end
+//@ fn sylt-parser/src/statement.rs outer_statement
+//@   props C07
+//@   ret r
+//@   spec
+        ensures r is Ok ==> ps_shape(r->Ok_0.1), //# C07 outer_statement.result_shape
+            r is Ok ==> r->Ok_0.1.kind is Blob || r->Ok_0.1.kind is Enum || r->Ok_0.1.kind is Definition || r->Ok_0.1.kind is ExternalDefinition
+                || r->Ok_0.1.kind is Use || r->Ok_0.1.kind is FromUse || r->Ok_0.1.kind is EmptyStatement, //# C07 outer_statement.only_declarations_definitions_and_imports_at_the_top_level
+            r is Err ==> r->Err_0.1.len() >= 1, //# C07 outer_statement.an_error_result_is_never_an_empty_list
+//@   endspec
+//@ end
 //@ fn sylt-parser/src/statement.rs block
 //@   props C07
 //@   attr #[verifier::exec_allows_no_decreases_clause]
